@@ -877,6 +877,35 @@ fn c04_container_witness(rep: &mut Report) {
     }
 }
 
+/// witness of the known C11 finding about documents that hold two elements of different kinds under one path
+fn c11_two_kinds_witness(rep: &mut Report) {
+    let hdr = "<?xml version=\"1.0\" encoding=\"utf-8\"?>\n<AUTOSAR xsi:schemaLocation=\"http://autosar.org/schema/r4.0 AUTOSAR_00050.xsd\" xmlns=\"http://autosar.org/schema/r4.0\" xmlns:xsi=\"http://www.w3.org/2001/XMLSchema-instance\">";
+    let base = format!("{hdr}<AR-PACKAGES><AR-PACKAGE><SHORT-NAME>p</SHORT-NAME></AR-PACKAGE></AR-PACKAGES></AUTOSAR>");
+    let doc = format!("{hdr}<AR-PACKAGES><AR-PACKAGE><SHORT-NAME>q</SHORT-NAME><ELEMENTS><SYSTEM><SHORT-NAME>x</SHORT-NAME></SYSTEM><ECU-INSTANCE><SHORT-NAME>x</SHORT-NAME></ECU-INSTANCE></ELEMENTS></AR-PACKAGE></AR-PACKAGES></AUTOSAR>");
+    let model = AutosarModel::new();
+    if model.load_buffer(base.as_bytes(), "base.arxml", true).is_err() {
+        rep.inconclusive("C11 witness: cannot load the base document");
+        return;
+    }
+    let before = dump_full(&model);
+    let r = model.load_buffer(doc.as_bytes(), "two.arxml", true);
+    rep.count("two_kinds_witness.calls", 1);
+    if let Err(e) = r {
+        let after = dump_full(&model);
+        if after != before && document_has_two_kinds_under_one_path(&doc) {
+            let variant = crate::hist::err_variant(&e);
+            let strip = |d: &str| -> String { d.split("--files").next().unwrap_or("").lines().map(|l| l.split(" files=[").next().unwrap_or(l)).collect::<Vec<_>>().join("\n") };
+            let section = if strip(&before) != strip(&after) { "tree-content" } else if before.split("--files").next() != after.split("--files").next() { "file-sets-of-elements" } else { "tables" };
+            rep.violation(
+                "failed-call-has-effect",
+                &format!("C11:failed-call-has-effect:LoadBuffer:{variant}:{section}:document-with-two-kinds-under-one-path:after=LoadBuffer"),
+                &format!("load_buffer of a document with /q/x as SYSTEM and as ECU-INSTANCE into a model that holds package p returns Err({variant}) but the model changed: {}", first_diff(&before, &after)),
+                J::obj().with("engine", J::s("c11-witness")),
+            );
+        }
+    }
+}
+
 pub fn run(prop: &str, rep: &mut Report, tier: &str) {
     setup_monitors();
     let plan = plan(prop, tier);
@@ -923,6 +952,9 @@ pub fn run(prop: &str, rep: &mut Report, tier: &str) {
     rep.require("successful_structural_mutations", 1000);
     if prop == "C04" {
         c04_container_witness(rep);
+    }
+    if prop == "C11" {
+        c11_two_kinds_witness(rep);
     }
     if matches!(prop, "C03" | "C04" | "C05" | "C06" | "C10" | "C11" | "C13") {
         // bounded exhaustive part: all histories of 3 calls (thorough: 4, evenly spaced beyond the cap) over the small universe
